@@ -97,6 +97,24 @@ class TokModel:
         """comparison facts whose edges dominate `block`"""
         fn, pr = self.fn, self.pr
         out = []
+        # `match bytes[i] { b's' => .., _ => .. }`: an integer switch on one byte of the text is a literal comparison per arm
+        for b in sorted(fn.cfg.reachable):
+            tt_ = fn.blocks[b]["term"]
+            if tt_["k"] != "switch" or tt_["ty"] != "u8":
+                continue
+            sl_ = slice_of(pr.operand(tt_["on"]))
+            if sl_ is None or sl_[0] != ("param", 1) or sl_[2] != sl_[1] + 1:
+                continue
+            vals_ = [v for v, _ in tt_["arms"]]
+            for lab_, _tgt in fn.cfg.succ_edges[b]:
+                if not fn.cfg.edge_dominates(b, lab_, block):
+                    continue
+                if lab_ == "otherwise":
+                    for v in vals_:
+                        if 0 <= v < 128:
+                            out.append(("slice-lit", "Ne", (sl_[1], sl_[2]), chr(v), (b, lab_)))
+                elif isinstance(lab_, int) and 0 <= lab_ < 128:
+                    out.append(("slice-lit", "Eq", (sl_[1], sl_[2]), chr(lab_), (b, lab_)))
         for b, lab, truth, term in I.bool_edges(fn, pr):
             if not fn.cfg.edge_dominates(b, lab, block):
                 continue
